@@ -289,11 +289,18 @@ class Index:
                     import difflib
                     sim = lambda a_, b_: difflib.SequenceMatcher(None, a_, b_).ratio()
                     for new_name in came:
-                        cands = [g for g in gone if ref_here[g] == cur_here[new_name]]
-                        if not cands or all_defs.get(new_name, 0) != 1 or new_name.startswith("__"):
+                        if all_defs.get(new_name, 0) != 1 or new_name.startswith("__"):
                             continue
+                        cands = [g for g in gone if ref_here[g] == cur_here[new_name]]
                         others = [c_ for c_ in came if c_ != new_name and cur_here[c_] == cur_here[new_name]]
-                        if len(cands) == 1 and not others:
+                        exact = len(cands) == 1 and not others
+                        if not exact:
+                            # parameters may have been renamed / reordered in the same commit: the number of parameters and the names decide
+                            cands = [g for g in gone if len(ref_here[g]) == len(cur_here[new_name])]
+                            others = [c_ for c_ in came if c_ != new_name and len(cur_here[c_]) == len(cur_here[new_name])]
+                        if not cands:
+                            continue
+                        if exact:
                             best = cands[0]              # the only name gone with this parameter list
                         else:
                             # several methods of the same shape were renamed: the names decide, when they do so clearly and mutually
@@ -361,14 +368,15 @@ class Index:
                         t.id for n in ast.walk(fn) if isinstance(n, ast.comprehension) for t in ast.walk(n.target) if isinstance(t, ast.Name)}
                     if set(ren) & rebound:
                         continue
-                    by_fn[(rel, qual)] = ren
+                    rname = self._method_renames.get(fn.name, fn.name)       # keys use the reference name (methods are renamed back first)
+                    by_fn[(rel, (cname + "." if cname else "") + rname)] = ren
                     if cname is None:
-                        by_callee[("func", rel, fn.name)] = ren
+                        by_callee[("func", rel, rname)] = ren
                     elif fn.name == "__init__":
                         if cname in classes:
                             by_callee[("ctor", cname)] = ren
                     elif fn.name in uniq:
-                        by_callee[("method", fn.name)] = ren
+                        by_callee[("method", rname)] = ren
         self._renames = (by_fn, by_callee)
         return self._renames
 
